@@ -44,6 +44,7 @@ fn eval(spec: &'static Spec, syms: &[Sym], h: &[usize], rep: Option<&mut Report>
     let mut rig = Rig::simple(spec);
     let mut found = None;
     let mut nref = 0usize;
+    let mut nasleep = 0usize;
     for (i, o) in ops.iter().enumerate() {
         let out = rig.apply(o);
         if !out.is_ok() {
@@ -59,6 +60,10 @@ fn eval(spec: &'static Spec, syms: &[Sym], h: &[usize], rep: Option<&mut Report>
             }
         }
         nref = chip.refreshes.len();
+        if chip.triggers_while_asleep.len() > nasleep && found.is_none() {
+            found = Some(("refresh-asleep".to_string(), vec![], o.k.name().to_string(), format!("refresh trigger {:02X} in op #{} ({}) was sent to a controller in deep sleep", chip.triggers_while_asleep[nasleep].1, i + 1, o.short())));
+        }
+        nasleep = chip.triggers_while_asleep.len();
         // driver bookkeeping (hook) vs controller
         if let Some(flag) = rig.panel.power_flag() {
             let model_on = chip.power == Power::On;
@@ -180,7 +185,15 @@ pub fn run(ctx: &Ctx) -> Report {
                 cases.push(Case { spec, h: random_history(spec, &syms, 5 + j % 8, &mut rng) });
             }
         } else {
-            // quick tier: sampled histories of 3..=6 symbols on top of the exhaustive length 1-2
+            // quick tier: every length-3 history that ends in a symbol with a refresh trigger (what two earlier
+            // calls did to the driver's idea of the panel state decides whether that refresh is legal) ...
+            let refreshing = |i: usize| syms[i].iter().any(|o| matches!(o.k, K::Display | K::UpdateAndDisplay | K::Clear | K::DisplayNew | K::UpdateAndDisplayNew));
+            for h in histories(spec, &syms, 3) {
+                if refreshing(h[2]) && (!big || h[0] != h[1]) {
+                    cases.push(Case { spec, h });
+                }
+            }
+            // ... and sampled histories of 3..=6 symbols on top of the exhaustive length 1-2
             for j in 0..(if big { 60 } else { 400 }) {
                 cases.push(Case { spec, h: random_history(spec, &syms, 3 + j % 4, &mut rng) });
             }
